@@ -316,6 +316,13 @@ def run(F, rep):
     # ------------------------------------------------------------------ every element of a collection is handled
     from engines import rule_visit_all
     rule_visit_all(F, rep, 'C04.Y1', lambda g: g.file.endswith('/validator.cpp'), 25, 'validator.cpp')
+    # per-call state: the verdict on a model does not depend on what the same Validator object looked at before (a memo keyed by component that survives validateModel)
+    import c12 as _c12
+    if not getattr(rep, 'nested', False):
+        _c12.rule_h1(F, rep, 'C04.H1', [st for st in _c12.STATE if st[0] == 'Validator::ValidatorImpl'])
+    # binary searches need a sorted range
+    from engines import rule_sorted_search
+    rule_sorted_search(F, rep, 'C04.U1', lambda g: '/src/' in g.file, 'the library')
 
     # ------------------------------------------------------------------ E: independent checks are all performed
     rep.rule('C04.E1', 'a validator function that makes several checks in sequence makes all of them: a `return` that is taken without reporting anything may only skip checks that are about the very thing its condition tested '
